@@ -346,6 +346,10 @@ def generate(unit, template_path, repo=None, canary=False):
             body, n = rw.r3_format(body)
             count('R3', n)
             fi.rewrites['R3'] = n
+        if designator.startswith('struct ') and 'keepvis' not in flags:
+            body, n = rw.r17_pub_fields(body)
+            count('R17', n)
+            fi.rewrites['R17'] = n
         if 'R13' in rewrites:
             body, n = rw.r13_const_str(body)
             count('R13', n)
@@ -460,6 +464,12 @@ def generate(unit, template_path, repo=None, canary=False):
                             j += 1
                         pos = st[j].end
                     inserts.append((pos, '\n' + ptxt.rstrip() + '\n', ('contract', fi.name, 'proof')))
+                elif 'at' in pkv and pkv['at'][0].startswith('loop'):
+                    k = int(pkv['at'][0][4:])
+                    loops = _loops(body, lay['body_open'])
+                    if k < 1 or k > len(loops):
+                        raise AnchorError(f'{fi.name}: proof anchor loop {k} not found')
+                    inserts.append((loops[k - 1][1] + 1, '\n' + ptxt.rstrip() + '\n', ('contract', fi.name, 'proof')))
                 elif 'at' in pkv and pkv['at'][0] == 'start':
                     inserts.append((lay['body_open'] + 1, '\n' + ptxt.rstrip() + '\n', ('contract', fi.name, 'proof')))
                 else:
